@@ -151,3 +151,32 @@ func normExt(doc []byte) []byte {
 	}
 	return out
 }
+
+// the same scene to every kind of destination (core.SinkAgreement), per container
+func (k checker) sinks(glb bool) {
+	cs := Case{GLB: glb, SaveSeq: []int{-3}}
+	k.c.Nontrivial("destinations", glb)
+	scenes := []Case{
+		{Models: []ModelSpec{{Mesh: "A", Mat: "-", TRS: "-"}}},
+		{Models: []ModelSpec{{Mesh: "O", Mat: "M", TRS: "TRS"}, {Mesh: "Q", Mat: "-", TRS: "T"}, {Mesh: "P", Mat: "M", TRS: "S"}}}, // at most one extension in use: the writer lists extension names in map order
+		{Models: []ModelSpec{{Mesh: "B65537", Mat: "-", TRS: "-"}}},
+	}
+	name := "gltf.WriteText"
+	if glb {
+		name = "gltf.WriteBinary"
+	}
+	for i, sc := range scenes {
+		why := core.SinkAgreement(func(w io.Writer) error {
+			if glb {
+				return gltf.WriteBinary(Build(sc), w)
+			}
+			return gltf.WriteText(Build(sc), w)
+		})
+		if why != "" {
+			k.c.Eval("files/destinations", "mismatch")
+			k.c.Violate(core.Violation{Site: name, Clause: "writing a scene yields the document of that scene (whatever kind of io.Writer receives it)", Class: "destinations", Detail: fmt.Sprintf("scene %d: %s", i, why), Case: cs})
+			return
+		}
+		k.c.Eval("files/destinations", "ok")
+	}
+}
